@@ -131,7 +131,7 @@ META = {
              "determine all nine signed fields and a sender exists only as recover(keccak(signed bytes), V-27, r, s). "
              "The model is run against the real rlp.DecodeBytes (generic tree, Transaction, Check, Signature), "
              "Executor.DecodeFromBytes and RecoverPlain on valid encodings, 13 kinds of structured non-canonical variants "
-             "(top level, inside signature, inside data), high-S twins, bad V, moved signatures, bit flips and random bytes; "
+             "(top level, inside signature, inside the signature data of multisig transactions, inside data), high-S twins, bad V, moved signatures, bit flips and random bytes; "
              "monitors check re-encoding equality, sender = signing key, and rejection of tampered signatures.",
         note=TB + "secp256k1 recovery and Keccak are Section parameters (trusted). The per-type Data structs and SignatureMulti "
              "are covered by the re-encoding monitors only, not modelled. KNOWN FINDING (recorded, not repaired): multisig-signed "
@@ -145,7 +145,7 @@ META = {
     "C01": dict(text="Theorems (induction over histories): for every history of transactions and block phases of the ledger model, every custom coin keeps volume = balances + frozen funds, and base-coin holdings + reward pool change only by what EndBlock hands to the reward accrual (whose own conservation is C19; emission C28; pool trades C13). " + LM + "The whole node (all 38 transaction types, rewards, slashing, orders) is watched by a monitor that recomputes every sum of the property from the export after every block.",
                 note=LN + "The base-coin emission statement at node level is checked by the monitor; in Coq it is split into C01 (transactions), C19 (accrual/payout), C28 (emission).",
                 technique="Coq proof (effect-list algebra, induction over histories) + differential correspondence on the real node + conservation monitor on node exports"),
-    "C02": dict(text="Theorem (induction over histories): along every history of block phases and well-formed transactions of the ledger model every balance and frozen fund stays >= 0 and every coin volume stays within [1, max supply] (guards of every transaction type incl. the multisend per-coin totals); pool reserves stay positive and payouts below reserves: C13 theorems; stake arithmetic: C17/C18. " + LM + "The whole node (all transaction types, rewards, slashing, orders) is watched by a monitor that checks the sign of every amount, volume <= max supply and reserves > 0 on the export after every block. Bancor coins (Model/CoinSupply.v = CheckForCoinSupplyOverflow / CheckReserveUnderflow and the volume/reserve updates of BuyCoin, SellCoin, SellAllCoin; formula results are arbitrary non-negative inputs): along any sequence of conversions the volume stays within [0, max supply] and the reserve at or above the minimum reserve, a purchase above the cap is refused with code 112 whatever its cost (C02_bancor_volume_within_max_supply, C02_purchase_above_cap_refused); tie: literals regenerated from the source, model 24 on the purchases of the supply-cap scenarios (coins a few units below their cap: headroom-1, headroom, headroom+1, multiples).",
+    "C02": dict(text="Theorem (induction over histories): along every history of block phases and well-formed transactions of the ledger model every balance and frozen fund stays >= 0 and every coin volume stays within [1, max supply] (guards of every transaction type incl. the multisend per-coin totals); pool reserves stay positive and payouts below reserves: C13 theorems; stake arithmetic: C17/C18. " + LM + "The whole node (all transaction types, rewards, slashing, orders) is watched by a monitor that checks the sign of every amount, volume <= max supply and reserves > 0 on the export after every block. Bancor coins (Model/CoinSupply.v = CheckForCoinSupplyOverflow / CheckReserveUnderflow and the volume/reserve updates of BuyCoin, SellCoin, SellAllCoin; formula results are arbitrary non-negative inputs): along any sequence of conversions the volume stays within [0, max supply] and the reserve at or above the minimum reserve, a purchase above the cap is refused with code 112 whatever its cost (C02_bancor_volume_within_max_supply, C02_purchase_above_cap_refused); tie: literals regenerated from the source, model 24 on the purchases of the supply-cap scenarios (coins a few units below their cap: headroom-1, headroom, headroom+1, multiples); creations of coins and tokens with the maximum just below / equal to the initial amount and at / above the global cap (ledger run, model 7; monitor c02-volume-above-max).",
                 note=LN + "Bancor reserves/volumes, stakes, waitlist, order volumes: monitor on node exports + the arithmetic theorems of C12/C13/C14/C17/C18, not one invariant over the full node state.",
                 technique="Coq proof (guard analysis per transaction type, invariant over histories) + differential correspondence on the real node + sign monitor on node exports"),
     "C03": dict(text="Theorems: a rejected DeliverTx leaves nonces, coins, owners, checks, multisigs, frozen funds untouched and changes exactly one balance - the payer's (sender / check issuer) gas-coin balance - by min(balance, failure fee), credited to the reward pool; an accepted one had the next nonce and advances exactly its sender's nonce by one; Run yields effects only after all checks passed. " + LM,
@@ -165,7 +165,7 @@ META = {
     "C22": dict(text="Theorems: every creation uses id = counter + 1 and sets the counter; along any history ids stay <= counter and the counter never decreases (ids never reused); create requires an unused ticker and makes the sender owner; recreate / edit owner / mint only by the ticker owner; recreate versions the old coin (max+1 mod 2^16) and gives the new one a fresh id and version 0; mint only on the active mintable coin within max supply; ACTIVE TICKERS ARE UNIQUE along every history in which no recreation wraps a ticker's uint16 version counter (C22_active_tickers_unique: distinct ids, at most one version-0 coin per ticker, invariant by induction over operations), and the statement is refuted at the wrap (C22_unique_refuted_at_version_wrap; reproduced on the node from a genesis with an archived version 65535: KNOWN FINDING c22-version-wrap). " + LM + "Registry monitors on node exports (unique active tickers, unique ids, counter).",
                 note=LN + "Pool-token creation (CreateSwapPool) is not in this model.",
                 technique="Coq proof (per-type specifications, id and ticker-uniqueness invariants over histories, refutation witness at the version wrap) + differential correspondence on the real node + registry monitors"),
-    "C26": dict(text="REFUTED for the code, proved: a transaction failing inside Run is charged the failure fee, keeps its nonce, and is charged again on re-delivery (C26_refuted, witness evaluated in Coq; reproduced on the node: KNOWN FINDING c26-failed-redelivery). Proved partial results: after a successful delivery every re-delivery is rejected with the state untouched; gate rejections never charge; one failing delivery costs at most the failure fee and at most the balance. " + LM + "The harness re-delivers earlier bytes (accepted and failed) and watches the payer. Node-level replay monitor (c26node): in histories of all 33 transaction kinds the signed bytes of accepted transactions are delivered again, right after their first delivery in the same block and in later blocks: never accepted twice.",
+    "C26": dict(text="REFUTED for the code, proved: a transaction failing inside Run is charged the failure fee, keeps its nonce, and is charged again on re-delivery (C26_refuted, witness evaluated in Coq; reproduced on the node: KNOWN FINDING c26-failed-redelivery). Proved partial results: after a successful delivery every re-delivery is rejected with the state untouched; gate rejections never charge; one failing delivery costs at most the failure fee and at most the balance. " + LM + "The harness re-delivers earlier bytes (accepted and failed) and watches the payer. Node-level replay monitor (c26node): in histories of all 33 transaction kinds the signed bytes of accepted transactions are delivered again, right after their first delivery in the same block and in later blocks: never accepted twice; half of these histories start with waitlist entries and are unbond-heavy (the waitlist branch of Unbond).",
                 note=LN + "Repair would need replay protection keyed by tx hash (new consensus state); C03 forbids advancing the nonce on failure: recorded as known finding, not patched.",
                 technique="Coq proof (refutation witness + partial theorems) + differential correspondence on the real node + re-delivery monitor"),
     "C27": dict(text="Theorems: an accepted transaction paid in base coin adds gas price x (type price + (payload+service bytes) x byte price) to the reward pool, less the ticker fee of a coin creation which goes from the reward pool to the zero address; a rejected one adds at most the failed-transaction price; type prices per table entry (Multisend base + delta x (n-1), ticker by length). " + LM + "Monitor: reward-pool growth per accepted transaction against the price table. Route choice (Model/FeeRoute.v = CalculateCommission; C27_cheaper_route, C27_route_is_an_available_quote, C27_no_route_refused), tied by model 22 and a node-level route monitor (c27node): on histories with bancor coins that also have a pool to the base coin, for every accepted transaction paying its commission in such a coin the charged amount and the tx.commission_conversion tag must be the cheaper of formula.CalculateSaleAmount on the pre-state reserve and the pool quote on a pre-state copy of the pool (tie: pool).",
@@ -181,7 +181,7 @@ META = {
                 note=TB + "Grace bit, validator-list membership and the sale-return oracle are inputs observed or replayed (formula.CalculateSaleReturn) by the harness. Found and repaired with this check: b9d9852 (punished candidate stayed online: duplicate evidence slashed twice, pending delegations kept the validator in the set). Pending stake updates are not slashed (they are not 'stakes' in the property's vocabulary).",
                 technique="Coq proof (induction over vote histories with a sliding-window invariant, lia over floor division) + regenerated constants + differential correspondence on the real node + monitors"),
     "C10": dict(
-        text="Theorem on a three-store write-list model (events db, state db, appdb) whose write order and guards are regenerated from Blockchain.Commit, State.Commit, tree.Commit, CommitEvents and every AppDB.Save*: for every history, every block and EVERY crash position k within the Commit of that block, the restarted node reports a height the consensus engine can replay from, re-executing the resent block(s) reproduces the app hash, and all later observations (responses, hashes, every appdb getter, stored events) equal the uncrashed node's (C10_for_this_code, for the code as it is now: appdb records in one atomic batch, fix ba5358b). Kept for the record: the unbatched variant is refuted right after the height write (C10_unbatched_refuted) and recoverable exactly up to it (C10_crash_recoverable_partial, tight). Node level: all three databases are wrapped; after every single write of Commit the stores are copied, a fresh node is started on the copy, Info + resend, and the continuation is compared with the uncrashed node; the logged write sequence is compared with the model's.",
+        text="Theorem on a three-store write-list model (events db, state db, appdb) whose write order and guards are regenerated from Blockchain.Commit, State.Commit, tree.Commit, CommitEvents and every AppDB.Save*: for every history, every block and EVERY crash position k within the Commit of that block, the restarted node reports a height the consensus engine can replay from, re-executing the resent block(s) reproduces the app hash, and all later observations (responses, hashes, every appdb getter, stored events) equal the uncrashed node's (C10_for_this_code, for the code as it is now: appdb records in one atomic batch, fix ba5358b). Kept for the record: the unbatched variant is refuted right after the height write (C10_unbatched_refuted) and recoverable exactly up to it (C10_crash_recoverable_partial, tight). Node level: all three databases are wrapped; after every single write of Commit the stores are copied, a fresh node is started on the copy, Info + resend, and the continuation is compared with the uncrashed node; the root of the state tree the recovered node opens must be the root committed for the height it reports (c10-loaded-state-is-not-the-committed-state); the logged write sequence is compared with the model's.",
         note=TB + "PARTIAL: caches of the state modules are not modelled (the C09 assumption). KNOWN FINDING c10-restart-after-initchain: InitChain computes the initial validator set after committing the genesis state, so a process restarted between InitChain and the first Commit executes block 1 on a different state. tm-db Set/batch atomicity and Tendermint's resend rule are trusted. Found and repaired with this check: ba5358b.",
         technique="Coq proof (prefix-replay simulation over the write list of three stores) + regenerated write order and guards + crash-injection differential on the real node"),
     "C11": dict(
@@ -193,11 +193,11 @@ META = {
         note=TB + "Multi-hop routes and buys through pools WITH limit orders are monitor-only. The failure fee is not modelled here (state re-synced after rejected deliveries; it is in the Ledger model). Gates other than commission-coin existence belong to the Ledger model. Bancor conversions use the formula results as oracle values (C12 speaks about them).",
         technique="Coq proof (lia/nia over Z, induction over routes and order books) + differential correspondence against the real node + monitors"),
     "C25": dict(
-        text="Theorems: (1) in a threads-with-RWMutex semantics (Acq R|W / Rel / Read / Write, any interleaving) threads that are well bracketed, never re-acquire a mutex they hold, read a field only under one of its guard mutexes and write it only under all of them in W mode never reach a configuration in which two threads are about to access one field, one writing (C25_lockset_race_free); tables accepted by the decidable checker all_guarded induce such threads (C25_table_race_free); for the current tree every thread that stays away from the reported sites is race free (C25_repo_race_free_except_reported), the reported list being exactly what Coq computes from the regenerated table (C25_unguarded_sites). (2) queries that fill a cache atomically with the value the committed tree holds leave every executor output and the logical content unchanged for every interleaving (C25_memo_transparent, C25_memo_interleaving_independent); a fill whose absence check and store are two critical sections does not (C25_memo_nonatomic_refuted, the shape of Accounts.get). The access table (324 accesses to 52 shared fields of swap, candidates, accounts, validators, coins, waitlist, frozenfunds, appdb, minter with must-held locksets, caller-inherited locks, query reachability), the lock order graph, re-acquisitions and non-atomic fills are regenerated from /repo by a go/ast+go/types translator on every run. Search: generated histories replayed on the real node while 4 goroutines call the real api/v2/service handlers on the live state, in a -race build, in a child process; app hashes / responses / validator updates / emission compared with the run alone; a watchdog turns a hang into a goroutine dump; a targeted first-touch scenario for the non-atomic fill.",
+        text="Theorems: (1) in a threads-with-RWMutex semantics (Acq R|W / Rel / Read / Write, any interleaving) threads that are well bracketed, never re-acquire a mutex they hold, read a field only under one of its guard mutexes and write it only under all of them in W mode never reach a configuration in which two threads are about to access one field, one writing (C25_lockset_race_free); tables accepted by the decidable checker all_guarded induce such threads (C25_table_race_free); for the current tree every thread that stays away from the reported sites is race free (C25_repo_race_free_except_reported), the reported list being exactly what Coq computes from the regenerated table (C25_unguarded_sites). (2) queries that fill a cache atomically with the value the committed tree holds leave every executor output and the logical content unchanged for every interleaving (C25_memo_transparent, C25_memo_interleaving_independent); a fill whose absence check and store are two critical sections does not (C25_memo_nonatomic_refuted, the shape of Accounts.get). The access table (324 accesses to 52 shared fields of swap, candidates, accounts, validators, coins, waitlist, frozenfunds, appdb, minter with must-held locksets, caller-inherited locks, query reachability), the lock order graph, re-acquisitions and non-atomic fills are regenerated from /repo by a go/ast+go/types translator on every run. Search: generated histories replayed on the real node while 4 goroutines call the real api/v2/service handlers on the live state, in a -race build, in a child process; app hashes / responses / validator updates / emission compared with the run alone; a watchdog turns a hang into a goroutine dump; a targeted first-touch scenario for the non-atomic fill; a scripted history with a partially filled committed limit order and the order / pool / estimate handlers between its DeliverTx calls.",
         note=TB + "PARTIAL by nature: the discipline theorem is proved, the table is extracted by a conservative static analysis (trusted; must-locksets, fail-closed: an access it cannot attribute is emitted unguarded; lock identity = owning struct + field + base expression; interface calls by class hierarchy; function-typed fields by their bindings), real schedules are only sampled. Deadlock freedom is NOT a theorem: lock-order cycles and re-acquisitions are reported by the translator and searched at run time. sync/atomic fields, per-object field reads by the API layer (stake, Candidate, Limit fields read without the object's lock) are outside the table: only the race detector speaks. Export and the Load* methods run on private states only (checked syntactically on every run). Handler panics are caught by the gRPC recovery interceptor and are recorded, not counted. Findings: see known_findings.json (seven defects repaired in /repo: 259ab52, 67be03c, eee65ec, 301c0af, e3e65c2, 0dd8b12, a1c8ec3). Statically reported sites that are not defects are on a reviewed list pinned in Properties/C25.v (C25_static_sites_reviewed: per site an argument and source facts re-checked on every run); a lock removed around a tracked shared container breaks the proof gate (51 of the 94 Lock/RLock pairs of swapV2.go, accounts.go, candidates.go; the other 43 guard executor-only fields or plain per-object fields, whose unsynchronised reads by the API layer are recorded by the race build but cannot crash or perturb execution).",
         technique="Coq proof of the lockset discipline and of memoisation transparency + regenerated access table evaluated in Coq + race-detector / deadlock / perturbation search on the real node under real API handlers"),
     "C29": dict(
-        text="Theorems: two nodes that committed the same blocks - with ANY restarts in between - produce identical snapshots (appdb disk records in the code's order + tree export); a node restored from a snapshot reports the producer's height and app hash; from then on it is observationally equal (responses, hashes, every appdb getter) to the producer for every continuation (simulation relation: the restored node has an empty events db and a single tree version). Tie: snapshot_records / restore_records / snapshot_reads_disk regenerated from snapshots.go. Node level: real cosmos-sdk snapshot store; producer A, producer B restarted at random heights (chunk bytes must be identical), restored node R driven through OfferSnapshot / ApplySnapshotChunk, then the same continuation on A and R: Info, responses, hashes, getters, exports, appdb bytes.",
+        text="Theorems: two nodes that committed the same blocks - with ANY restarts in between - produce identical snapshots (appdb disk records in the code's order + tree export); a node restored from a snapshot reports the producer's height and app hash; from then on it is observationally equal (responses, hashes, every appdb getter) to the producer for every continuation (simulation relation: the restored node has an empty events db and a single tree version). Tie: snapshot_records / restore_records / snapshot_reads_disk regenerated from snapshots.go. Node level: real cosmos-sdk snapshot store; producer A, producer B restarted at random heights (chunk bytes must be identical), restored node R driven through OfferSnapshot / ApplySnapshotChunk (every second one after all application-database getters were read on the still empty node), then the same continuation on A and R: Info, responses, hashes, getters, exports, appdb bytes.",
         note=TB + "IAVL export/import, zlib, protobuf and chunking are trusted and exercised. An emission of exactly 0 is excluded (empty record is skipped by Snapshot). The events db is not part of a snapshot: older events are absent on the restored node.",
         technique="Coq proof (disk determinism under restarts via the C09 coherence invariant; simulation) + regenerated snapshot record lists + real snapshot-store differential"),
     "C12": dict(
@@ -209,7 +209,8 @@ META = {
              "inputs and each result is checked by the extracted Coq checker and by direct monitors. At the transaction level (run c12tx): "
              "sell / buy / sell-all coin transactions on a real node are compared with model 19 (SwapTx.v: the amounts are the "
              "formulas applied to the curve without the fee when the fee came out of that coin's reserve) and the monitor "
-             "c12-tx-off-curve recomputes tx.return with formula.Calculate* on that curve.",
+             "c12-tx-off-curve recomputes tx.return with formula.Calculate* on that curve; theorem C12_tx_sell_all_on_the_curve_after_the_fee "
+             "(any formula values): an accepted sell-all returns the sale-return formula on the curve after the fee.",
         note=TB + "PARTIAL: 'the 100-bit big.Float branch is within 2^-33*ideal+1' is validated on samples (observed max "
              "2^-43.9 for supply,reserve < 2^96), not proved; the round-trip transfer is proved only when the purchased "
              "amount does not exceed the curve. KNOWN FINDING c12-tolerance-above-2^96: supply > 2^96 breaks the tolerance (100-bit mantissa).",
@@ -228,7 +229,7 @@ META = {
              "collides with id 1. A repair changes the on-disk id format (docs/proposals/c24_fix_proposal.patch); recorded, not applied.",
         technique="Coq proof (representation invariant over fold of operations; width-generic wrap lemmas; "
                   "vm_compute witness) + differential against the real store + field-by-field monitors"),
-    "C07": dict(text="PARTIAL BY NATURE. Proved: every explicit crash site (panic / log.Panic / log.Fatal / os.Exit, ~200 sites) of the consensus packages, regenerated from the Go source on every run, is covered by the reviewed classification table (a new or moved site breaks the proof gate); the sites carried by the models are unreachable (negative balance at commit, reward 'Negative remainder', swap ErrorK/liquidity, payout and power divisions); the modelled executor and the decoders are total. Exercised, not proved: runtime faults outside explicit sites - scripted crash scenarios from earlier findings, generated histories with malformed transactions, absences, byzantine evidence and block-time walks, byte-level fuzz into DeliverTx and check-mode RunTx; every ABCI call under recover().",
+    "C07": dict(text="PARTIAL BY NATURE. Proved: every explicit crash site (panic / log.Panic / log.Fatal / os.Exit, ~200 sites) of the consensus packages, regenerated from the Go source on every run, is covered by the reviewed classification table (a new or moved site breaks the proof gate); the sites carried by the models are unreachable (negative balance at commit, reward 'Negative remainder', swap ErrorK/liquidity, payout and power divisions); the modelled executor and the decoders are total. Exercised, not proved: runtime faults outside explicit sites - scripted crash scenarios from earlier findings, generated histories with malformed transactions, absences, byzantine evidence and block-time walks, byte-level fuzz into DeliverTx and check-mode RunTx; a quarter of the redeemed checks are validly signed but carry a 62/66/73-byte lock or a nonce around the 16-byte limit; every ABCI call under recover().",
                 note=TB + "Classes of the table: EnvError (storage/encoding errors: trusted environment), Legacy (executors and swap v1 unreachable at V330), NotConsensus, Proved, GuardedByCheck (transaction-level check precedes; validated by the harness only), ByDesign (halt: os.Exit). Nil dereferences, slice bounds, divisions by zero in unmodelled code, OOM and stack depth are outside what a theorem here can exhibit. Found and repaired with this check: f518499, 20acd05, c0a2cc6, 11ddaa1, e60f1c0.",
                 technique="Coq proof (inventory coverage by computation, no-panic theorems of the models) + regenerated crash-site inventory + scenario/history/fuzz execution under recover()"),
     "C08": dict(
